@@ -103,6 +103,9 @@ type c14pbAcc struct {
 	allow, block     []string
 	allowASN, blkASN []uint32
 	rules            []string
+	// junk: the backend's allow-list also holds entries whose address is neither 4 nor 16 bytes long;
+	// they are reported and skipped, and change nothing about the other entries of either list
+	junk int
 }
 
 type c14pbRL struct {
@@ -138,6 +141,7 @@ func c14pbSettings(p string, salt int) (s c14pbPS) {
 			allowASN: []uint32{uint32(1 + r.Intn(100))},
 			blkASN:   [][]uint32{{2}, {65535, 65536}, {4294967295}, nil}[r.Intn(4)],
 			rules:    []string{fmt.Sprintf("block%d.test", r.Intn(10))},
+			junk:     []int{0, 0, 1, 2}[r.Intn(4)],
 		}
 	}
 	if r.Intn(3) > 0 {
@@ -203,6 +207,9 @@ func (s c14pbPS) pb(p string, deleted bool, devs []*DeviceSettings) *DNSProfile 
 	if a := s.acc; a != nil {
 		m.Access = &AccessSettings{Enabled: a.enabled, AllowlistCidr: c14pbCIDRs(a.allow), BlocklistCidr: c14pbCIDRs(a.block),
 			AllowlistAsn: a.allowASN, BlocklistAsn: a.blkASN, BlocklistDomainRules: a.rules}
+		for i := 0; i < a.junk; i++ {
+			m.Access.AllowlistCidr = append([]*CidrRange{{Address: []byte{1, 2, byte(3 + i)}, Prefix: 24}}, m.Access.AllowlistCidr...)
+		}
 	}
 	if r := s.rl; r != nil {
 		m.RateLimit = &RateLimitSettings{Enabled: r.enabled, Rps: r.rps, ClientCidr: c14pbCIDRs(r.nets)}
@@ -671,6 +678,13 @@ type c14pbWorld struct {
 	mode       string // eager | lazy | never
 	collected  []string
 	broken     bool
+	// the last delivery of each profile seen through the look-ups, with the update time of its custom rules
+	seenProf map[agd.ProfileID]c14pbSeen
+}
+
+type c14pbSeen struct {
+	p   *agd.Profile
+	upd time.Time
 }
 
 func (w *c14pbWorld) advance(d time.Duration) {
@@ -890,6 +904,24 @@ func (w *c14pbWorld) probe(ev *c14pbEvent) {
 				ev.NDelFound++
 			}
 		}
+	}
+	// A profile that is delivered again (a new object) carries its custom rules with an update time that
+	// has advanced: the filters compiled from a profile's custom rules are cached by that time, and one
+	// that does not advance leaves the filter of the OLD rules in use.
+	if w.seenProf == nil {
+		w.seenProf = map[agd.ProfileID]c14pbSeen{}
+	}
+	for _, d := range c14pbDevs {
+		p, _, err := w.db.ProfileByDeviceID(ctx, agd.DeviceID(d))
+		if err != nil || p == nil || p.FilterConfig == nil || p.FilterConfig.Custom == nil {
+			continue
+		}
+		upd := p.FilterConfig.Custom.UpdateTime
+		if prev, ok := w.seenProf[p.ID]; ok && prev.p != p && !upd.After(prev.upd) {
+			bad = append(bad, fmt.Sprintf("profile %s was delivered again but the update time of its custom rules did not advance (%s -> %s)",
+				p.ID, prev.upd.UTC().Format(time.RFC3339Nano), upd.UTC().Format(time.RFC3339Nano)))
+		}
+		w.seenProf[p.ID] = c14pbSeen{p: p, upd: upd}
 	}
 	for _, d := range c14pbDevs {
 		got := w.obs(w.db.ProfileByDeviceID(ctx, agd.DeviceID(d)))
